@@ -108,6 +108,9 @@ def cases(tier, seed):
                              ("rod:R12:1", (0.0, 0.37)), ("rod:SE3:1", (0.5, 1.0))):
             for xi in xis:
                 out.append({"kind": "force", "carrier": carrier, "fkind": fk, "xi": xi})
+    # several conservative elements in one system (the total energy is the sum)
+    for combo in ("spring+force", "spring+spring+force"):
+        out.append({"kind": "combo", "combo": combo})
     # gyroscopic terms
     out.append({"kind": "gyro", "what": "rb"})
     for interp, deg in (("Quaternion", 1), ("Quaternion", 2), ("R12", 1), ("SE3", 1)):
@@ -371,6 +374,39 @@ def check_force(case):
     return acc.result(outcome=f"force:{carrier.split(':')[0]}")
 
 
+def check_combo(case):
+    """several conservative elements acting on shared bodies: total power = - d/dt total potential"""
+    from cardillo import System
+    from cardillo.interactions import TwoPointInteraction
+    from cardillo.force_laws import Spring
+    from cardillo.forces import Force
+
+    acc = Acc()
+    seed = case["seed"]
+    sc = F.Scene()
+    sc.system = system = System(t0=0.0)
+    c0 = F.make_carrier("rb", 0, seed)
+    c1 = F.make_carrier("pm", 1, seed)
+    system.add(c0.obj, c1.obj)
+    sc.carriers = [c0, c1]
+    tpi = TwoPointInteraction(c0.obj, c1.obj, B_r_CP1=0.3 * weyl(seed, 21, 3), name="tpi_a")
+    system.add(tpi, Spring(tpi, 10.0, l_ref=1.1, compliance_form=False, name="spring_a"))
+    if case["combo"].count("spring") == 2:
+        tpi2 = TwoPointInteraction(system.origin, c1.obj, name="tpi_b")
+        system.add(tpi2, Spring(tpi2, 4.0, l_ref=2.0, compliance_form=False, name="spring_b"))
+    system.add(Force(F.force_fun("time", seed), c0.obj, B_r_CP=0.3 * weyl(seed, 23, 3), name="force_a"))
+    system.add(Force(np.array([0.0, 0.0, -9.81]), c1.obj, name="force_b"))
+    F._assemble(system)
+    F.isolate(sc, props=("h", "h_q", "h_u", "E_pot"))
+    for t in F.TIMES:
+        for letter in (0, 1, 2):
+            q = sc.q_from(F.tpi_state(sc, letter, seed, t))
+            for uname, u in velocity_letters(system.nu, seed, small=False):
+                power_balance(acc, "eq", "several elements: System.h.u vs -d/dt System.E_pot", system, t, q, u,
+                              {"t": t, "state": letter, "u": uname})
+    return acc.result(outcome="combo")
+
+
 # ------------------------------------------------------------------------------------------------
 # gyroscopic terms
 # ------------------------------------------------------------------------------------------------
@@ -609,6 +645,8 @@ def check(case):
             return check_law(case)
         if kind == "force":
             return check_force(case)
+        if kind == "combo":
+            return check_combo(case)
         if kind == "gyro":
             return check_gyro(case)
         if kind == "lineload":
